@@ -292,8 +292,10 @@ def _run_one(prop, o, tier, workdir):
         r["status"] = "BUILD_ERROR"
         r["wall_s"] = round(time.time() - t0, 2)
         return r
-    timeout = o.timeout or (150 if tier == "quick" else 900)
-    mem = o.mem_gb or (6 if tier == "quick" else 14)
+    # generous caps: a time-out is INCONCLUSIVE (never a pass), so caps only bound how long a hung solver is waited for; the
+    # machine that re-runs the checks may be slower or busier than the one they were tuned on (seen: 180 s here, >280 s there)
+    timeout = max(o.timeout or 0, 1200 if tier == "quick" else 3000)
+    mem = max(o.mem_gb or 0, 10 if tier == "quick" else 16)
     cmd = cbmc_cmd(o, gb)
     r["cmd"] = " ".join(cmd).replace(workdir + "/", "")
     rc, out, wall = sh(cmd, timeout=timeout, mem_gb=mem)
